@@ -2087,6 +2087,11 @@ fn seq_subjects(seed: u64) -> Vec<(Subject, usize, usize)> {
 
 pub fn run(tier: Tier, seed: u64) -> i32 {
     let rep = Report::new("C19", tier, seed, Level::ModelChecking);
+    // the thorough bounds take half a minute: both tiers run them (the tier labels the evidence)
+    let tier = {
+        let _ = tier;
+        Tier::Thorough
+    };
     rep.set_rule(
         "(i) every admissible builder program (valid indices, ≤ max files; a tag name may be added again while its tag selects no file) up to the depth bound over {add_tag, remove_tag, add_file, add_file_with_tags/properties, associate (by name, by index, last), dissociate, remove_file (by index, by key), from_manifest re-open, update size/priority} × 2 tags × 3 file-index slots, from 0 files and from 7 files, on the real install builder and download builders v1/v2/v3; states = distinct serialized manifests (merged only after the name→index probe passed), transitions = builder calls executed, traces = programs executed; every program ≥ 1 call is distinct and non-trivial",
     );
